@@ -611,6 +611,10 @@ def nonce_race_script(seed, nbursts, driver, workdir):
         if rnd.random() < 0.3:
             reqs += [{"op": "Nonce", "ident": "x9", "v": v + 1, "wallet": False} for _ in range(2)]
             v += 1
+        if v > 6 and rnd.random() < 0.4:
+            # replays of nonces accepted long ago race with the fresh ones: each must be refused and change nothing
+            reqs += [{"op": "Nonce", "ident": "x9", "v": v - rnd.choice([2, 3, 5]), "wallet": False} for _ in range(rnd.choice([2, 4, 6]))]
+            rnd.shuffle(reqs)
         ops.append({"op": "Burst", "reqs": reqs})
     return {"driver": driver, "dir": "%s/badger-nrace-%d" % (workdir, seed), "seed": seed, "ops": ops}
 
